@@ -59,7 +59,11 @@ const (
 	tPageResp gtype = "PageResp" // *query.PageResponse
 	tErrV     gtype = "ErrVal"   // an error value carried to the return (deferred-error idiom)
 	tEmptyLit gtype = "EmptyLit" // the literal ""
+	tNext     gtype = "Next"     // sdk.AnteHandler: the rest of the ante chain
 )
+
+func isMap(t gtype) bool   { return strings.HasPrefix(string(t), "M:") } // M:<value type>, keys are uint64
+func mapVal(t gtype) gtype { return gtype(strings.TrimPrefix(string(t), "M:")) }
 
 func isStruct(t gtype) bool { return strings.HasPrefix(string(t), "S:") }
 func isList(t gtype) bool   { return strings.HasPrefix(string(t), "L:") }
@@ -114,6 +118,9 @@ func coqTypeK(t gtype) string {
 	}
 	if isList(t) {
 		return "(list " + coqTypeK(elemOf(t)) + ")"
+	}
+	if isMap(t) {
+		return "(list (Z * " + coqTypeK(mapVal(t)) + "))"
 	}
 	return "?"
 }
@@ -205,8 +212,19 @@ func goTypeK(e ast.Expr) gtype {
 		return tPageReq
 	case "query.PageResponse":
 		return tPageResp
+	case "sdk.AnteHandler":
+		return tNext
+	}
+	if mt, ok := e.(*ast.MapType); ok && exprName(mt.Key) == "uint64" {
+		vt := goTypeK(mt.Value)
+		if vt != tUnknown {
+			return gtype("M:" + string(vt))
+		}
 	}
 	n = strings.TrimPrefix(n, "types.")
+	if a, ok := localTypeAlias[n]; ok {
+		return gtype("S:" + a)
+	}
 	if _, ok := structTable[n]; ok {
 		return gtype("S:" + n)
 	}
@@ -253,6 +271,9 @@ type constDef struct {
 }
 
 var cur *moduleSpec
+
+// struct types declared inside the function being translated: Go name -> name in structTable
+var localTypeAlias = map[string]string{}
 
 var structTable = map[string][]field{}
 var structOrder []string
@@ -450,6 +471,7 @@ type fnSig struct {
 	hasErr    bool    // last Go result is `error`
 	results   []gtype // without the error
 	dropCtx   bool    // first Go argument is the context
+	ctxResult bool    // first Go result is the context (AnteHandle): dropped
 	zeroOnErr bool    // on error the Go function returns the zero values of its other results (allows the deferred-error idiom)
 }
 
@@ -515,7 +537,11 @@ var kMethodTable = map[methodKey]fnSig{
 	{tTx, "FeePayer"}:       {coq: "Tx_FeePayer", results: []gtype{tAddr}},
 	{tCoin, "IsPositive"}:   {coq: "Coin_IsPositive", results: []gtype{tBool}},
 	{tInt, "Uint64"}:        {coq: "Int_Uint64", impure: true, results: []gtype{tUint64}},
+	{tCoins, "IsValid"}:     {coq: "Coins_IsValid", results: []gtype{tBool}},
 }
+
+// parameter names under which the ante helpers receive keepers
+var keeperParamNames = map[string]bool{"bankKeeper": true, "accKeeper": true, "ek": true, "wk": true, "bk": true, "wck": true}
 
 // package-level / keeper-field constants
 var constTable map[string]constDef
@@ -636,7 +662,34 @@ var enterprisePrims = map[string]fnSig{
 	"k.GetAllSpentEFUNDs":            {coq: "ent_GetAllSpentEFUNDs", reads: true, results: []gtype{"L:S:SpentEFUND"}, dropCtx: true},
 }
 
+// the fee decorators of x/wrkchain/ante and x/beacon/ante, translated against the application-level world
+// (model/AnteWorld.v: bank, enterprise and the module's registry state, the CheckTx flag)
+func antePrims() map[string]fnSig {
+	m := map[string]fnSig{
+		"ctx.IsCheckTx":                   {coq: "aw_IsCheckTx", reads: true, results: []gtype{tBool}},
+		"k.GetParamDenom":                 {coq: "reg_GetParamDenom", reads: true, results: []gtype{tDenom}, dropCtx: true},
+		"k.GetMaxPurchasableSlots":        {coq: "reg_GetMaxPurchasableSlots", reads: true, results: []gtype{tUint64}, dropCtx: true},
+		"accKeeper.GetAccount":            {coq: "acc_GetAccount", reads: true, results: []gtype{tModAcc}, dropCtx: true},
+		"bankKeeper.GetAllBalances":       {coq: "bank_GetAllBalances", reads: true, results: []gtype{tCoins}, dropCtx: true},
+		"bankKeeper.SpendableCoins":       {coq: "bank_SpendableCoins", reads: true, results: []gtype{tCoins}, dropCtx: true},
+		"ek.GetLockedUndAmountForAccount": {coq: "ent_GetLockedUndAmountForAccount", reads: true, results: []gtype{tCoin}, dropCtx: true},
+		"sdk.NewCoins":                    {coq: "sdk_NewCoins1", impure: true, results: []gtype{tCoins}},
+	}
+	for _, g := range []string{"GetZeroFeeAsCoin", "GetRegistrationFeeAsCoin", "GetRecordFeeAsCoin", "GetPurchaseStorageFeeAsCoin"} {
+		m["k."+g] = fnSig{coq: "reg_" + g, reads: true, impure: true, results: []gtype{tCoin}, dropCtx: true}
+	}
+	return m
+}
+
 var modules = map[string]*moduleSpec{
+	"wrkante": {name: "wrkchain", pbFiles: []string{"wrkchain.pb.go", "tx.pb.go", "genesis.pb.go", "query.pb.go"}, anteFiles: []string{"ante/ante.go", "exported/exported.go"},
+		want:  []string{"CheckIsWrkChainTx", "checkWrkchainFees", "checkFeePayerHasFunds", "checkWrkChainMaxSlots", "AnteHandle"},
+		prims: antePrims(), consts: map[string]constDef{}, world: "aworld", imports: "lib.Prelude lib.GoSdk GeneratedWrkchainTypes model.WrkchainAntePrims",
+		typesMod: "", keeperMod: "GeneratedWrkchainAnte", listName: "wrkchain_ante_other_functions"},
+	"bcnante": {name: "beacon", pbFiles: []string{"beacon.pb.go", "tx.pb.go", "genesis.pb.go", "query.pb.go"}, anteFiles: []string{"ante/ante.go", "exported/exported.go"},
+		want:  []string{"CheckIsBeaconTx", "checkBeaconFees", "checkFeePayerHasFunds", "checkBeaconMaxSlots", "AnteHandle"},
+		prims: antePrims(), consts: map[string]constDef{}, world: "aworld", imports: "lib.Prelude lib.GoSdk GeneratedBeaconTypes model.BeaconAntePrims",
+		typesMod: "", keeperMod: "GeneratedBeaconAnte", listName: "beacon_ante_other_functions"},
 	"enterprise": {name: "enterprise", pbFiles: []string{"enterprise.pb.go", "tx.pb.go", "genesis.pb.go", "query.pb.go"}, rootFiles: []string{"genesis.go"}, goFiles: []string{"locked.go", "blocker.go", "purchase.go", "whitelist.go", "msg_server.go", "grpc_query.go"},
 		want: []string{"GetTotalUnLockedUnd", "GetTotalUndSupply", "GetEnterpriseSupplyIncludingLockedUnd", "GetTotalSupplyWithLockedNundRemoved",
 			"GetSupplyOfWithLockedNundRemoved", "GetEnterpriseUserAccount",
@@ -692,6 +745,11 @@ type kTrans struct {
 	fresh        int
 	errs         []string
 	funcs        map[string]fnSig
+	errAlias     map[string]string // err := sdkerrors.Wrap(E, ..): the variable stands for the error class E
+	recvName     string            // the receiver's name as written (wfd): its keeper fields are not values
+	localDefs    string            // records of struct types declared inside the function
+	ctxResult    bool              // the function's first result is the context: dropped from returns
+	fnName       string
 }
 
 func (kt *kTrans) fail(format string, a ...interface{}) {
@@ -740,6 +798,11 @@ func (kt *kTrans) lookup(name string) (fnSig, bool) {
 	}
 	if s, ok := kt.funcs[name]; ok {
 		return s, true
+	}
+	if strings.HasPrefix(name, "exported.") {
+		if s, ok := kt.funcs[strings.TrimPrefix(name, "exported.")]; ok {
+			return s, true
+		}
 	}
 	if !strings.Contains(name, ".") {
 		if s, ok := kt.funcs["types."+name]; ok {
@@ -793,6 +856,14 @@ func (kt *kTrans) call(t *ast.CallExpr) (pre []kbinding, term string, sig fnSig,
 	for _, a := range goArgs {
 		if id, isId := a.(*ast.Ident); isId && kt.env[id.Name] == tCtx {
 			continue // a context under another name (goCtx, c): the world is passed instead
+		}
+		if sel, isSel := a.(*ast.SelectorExpr); isSel && kt.recvName != "" && exprName(sel.X) == kt.recvName && kt.env[kt.recvName] == "" && strings.Contains(strings.ToLower(sel.Sel.Name), "keeper") {
+			continue // a keeper held by the decorator: the callee reaches it through the world
+		}
+		if id, isId := a.(*ast.Ident); isId {
+			if _, known := kt.env[id.Name]; !known && keeperParamNames[id.Name] {
+				continue // a keeper handed on
+			}
 		}
 		p, v, _ := kt.expr(a)
 		pre = append(pre, p...)
@@ -944,6 +1015,10 @@ func (kt *kTrans) expr(e ast.Expr) (pre []kbinding, val string, typ gtype) {
 	case *ast.IndexExpr:
 		p1, l, lty := kt.expr(t.X)
 		p2, i, ity := kt.expr(t.Index)
+		if isMap(lty) && ity == tUint64 {
+			// m[k]: the zero value when k is not in the map
+			return append(p1, p2...), "(go_map_get " + zeroOf(mapVal(lty)) + " " + l + " " + i + ")", mapVal(lty)
+		}
 		if !isList(lty) || (ity != tInt64 && ity != tUint64) {
 			kt.fail("index %s[%s]", lty, ity)
 			return nil, "?", tUnknown
@@ -1108,6 +1183,11 @@ func (kt *kTrans) expr(e ast.Expr) (pre []kbinding, val string, typ gtype) {
 				kt.fail("len of %s", ty)
 			}
 			return p, "(go_len " + v + ")", tInt64
+		}
+		if name == "make" && len(t.Args) == 1 {
+			if mt := goTypeK(t.Args[0]); isMap(mt) {
+				return nil, "[]", mt
+			}
 		}
 		if name == "append" && len(t.Args) == 2 && t.Ellipsis == token.NoPos {
 			p1, l, lty := kt.expr(t.Args[0])
@@ -1435,6 +1515,50 @@ func (kt *kTrans) stmts(list []ast.Stmt) string {
 		return line + kt.stmts(rest2)
 	case *ast.DeclStmt:
 		gd := t.Decl.(*ast.GenDecl)
+		if gd.Tok == token.TYPE {
+			// type b struct { .. } inside the function: a record of its own
+			for _, sp := range gd.Specs {
+				ts := sp.(*ast.TypeSpec)
+				st, ok := ts.Type.(*ast.StructType)
+				if !ok {
+					kt.fail("unsupported local type %s", ts.Name.Name)
+					return "?"
+				}
+				full := kt.fnName + "_" + ts.Name.Name
+				var fs []field
+				for _, fl := range st.Fields.List {
+					ty := goTypeK(fl.Type)
+					if ty == tUnknown {
+						kt.fail("local type %s: unsupported field type", ts.Name.Name)
+					}
+					for _, nm := range fl.Names {
+						fs = append(fs, field{nm.Name, ty})
+					}
+				}
+				structTable[full] = fs
+				localTypeAlias[ts.Name.Name] = full
+				var decl, zeros []string
+				for _, f := range fs {
+					decl = append(decl, fmt.Sprintf("%s_%s : %s", full, f.name, coqTypeK(f.typ)))
+					zeros = append(zeros, zeroOf(f.typ))
+				}
+				d := fmt.Sprintf("Record go_%s := mk_go_%s { %s }.\n", full, full, strings.Join(decl, "; "))
+				d += fmt.Sprintf("Definition zero_go_%s : go_%s := mk_go_%s %s.\n", full, full, full, strings.Join(zeros, " "))
+				for i, f := range fs {
+					var args []string
+					for j, g := range fs {
+						if i == j {
+							args = append(args, "v")
+						} else {
+							args = append(args, fmt.Sprintf("(%s_%s s)", full, g.name))
+						}
+					}
+					d += fmt.Sprintf("Definition set_%s_%s (s : go_%s) (v : %s) : go_%s := mk_go_%s %s.\n", full, f.name, full, coqTypeK(f.typ), full, full, strings.Join(args, " "))
+				}
+				kt.localDefs = d
+			}
+			return kt.stmts(rest)
+		}
 		out := ""
 		for _, sp := range gd.Specs {
 			vs := sp.(*ast.ValueSpec)
@@ -1486,6 +1610,17 @@ func (kt *kTrans) stmts(list []ast.Stmt) string {
 			}
 			kt.fail("unsupported type assertion")
 			return "?"
+		}
+		// err := sdkerrors.Wrapf(E, ..): the variable stands for the error class (it may only be returned)
+		if ce, ok := t.Rhs[0].(*ast.CallExpr); ok && len(t.Lhs) == 1 && len(ce.Args) >= 1 && (isWrap(exprName(ce.Fun)) || isStatusErr(exprName(ce.Fun))) {
+			if _, isCall := ce.Args[0].(*ast.CallExpr); !isCall && kt.env[exprName(ce.Args[0])] == "" {
+				cls := errConst(ce.Args[0])
+				if isStatusErr(exprName(ce.Fun)) {
+					cls = "grpc_" + cls
+				}
+				kt.errAlias[exprName(t.Lhs[0])] = cls
+				return kt.stmts(rest)
+			}
 		}
 		// errMsg := fmt.Sprintf(..): message texts are not modelled
 		if ce, ok := t.Rhs[0].(*ast.CallExpr); ok && exprName(ce.Fun) == "fmt.Sprintf" && len(t.Lhs) == 1 {
@@ -1539,6 +1674,14 @@ func (kt *kTrans) stmts(list []ast.Stmt) string {
 		case *ast.IndexExpr:
 			base, ok := l.X.(*ast.Ident)
 			bty := kt.env[exprName(l.X)]
+			if ok && isMap(bty) {
+				p2, kv, kty := kt.expr(l.Index)
+				if kty != tUint64 || mapVal(bty) != ty {
+					kt.fail("unsupported map assignment %s[%s] = %s", bty, kty, ty)
+					return "?"
+				}
+				return kwrap(append(pre, p2...), "let "+base.Name+" := (go_map_set "+base.Name+" "+kv+" "+v+") in\n"+kt.stmts(rest))
+			}
 			if bty == tCoins {
 				bty = gtype("L:" + string(tCoin))
 			}
@@ -1617,6 +1760,17 @@ func errConst(e ast.Expr) string {
 }
 
 func (kt *kTrans) ret(results []ast.Expr) string {
+	if kt.ctxResult && len(results) == 1 {
+		// return next(ctx, tx, simulate): the decorator has no objection
+		if ce, ok := results[0].(*ast.CallExpr); ok && exprName(ce.Fun) == "next" && len(kt.loops) == 0 {
+			return kt.okUnit()
+		}
+	}
+	if kt.ctxResult && len(results) >= 1 {
+		if id, ok := results[0].(*ast.Ident); ok && kt.env[id.Name] == tCtx {
+			results = results[1:]
+		}
+	}
 	nval := len(kt.results)
 	want := nval
 	if kt.hasErr {
@@ -1647,6 +1801,9 @@ func (kt *kTrans) ret(results []ast.Expr) string {
 	deferred := ""
 	if kt.hasErr {
 		last := results[len(results)-1]
+		if id, isId := last.(*ast.Ident); isId && kt.errAlias[id.Name] != "" {
+			return "Err " + kt.errAlias[id.Name]
+		}
 		if id, isId := last.(*ast.Ident); isId && kt.env[id.Name] == tErrV {
 			deferred = id.Name
 		} else if exprName(last) != "nil" {
@@ -1859,6 +2016,18 @@ func (kt *kTrans) rangeStmt(t *ast.RangeStmt, rest []ast.Stmt) string {
 	if xty == tCoins {
 		xty = gtype("L:" + string(tCoin))
 	}
+	mapRange := ""
+	if isMap(xty) {
+		// for k, v := range m: the order is unspecified in Go; here: the order in which the keys were first set (the
+		// theorems about such loops do not depend on it)
+		if idx == "" {
+			kt.fail("range over a map without its key")
+			return "?"
+		}
+		mapRange = idx
+		idx = ""
+		xty = gtype("L:" + string(mapVal(xty)))
+	}
 	if !isList(xty) {
 		kt.fail("range over %s", xty)
 		return "?"
@@ -1905,6 +2074,9 @@ func (kt *kTrans) rangeStmt(t *ast.RangeStmt, rest []ast.Stmt) string {
 	if idx != "" {
 		kt.env[idx] = tInt64
 	}
+	if mapRange != "" {
+		kt.env[mapRange] = tUint64
+	}
 	kt.loops = append(kt.loops, state)
 	body := reread + kt.stmts(t.Body.List)
 	kt.loops = kt.loops[:len(kt.loops)-1]
@@ -1917,6 +2089,9 @@ func (kt *kTrans) rangeStmt(t *ast.RangeStmt, rest []ast.Stmt) string {
 	comb := "go_range (fun " + x
 	if idx != "" {
 		comb = "go_range_i (fun " + idx + " " + x
+	}
+	if mapRange != "" {
+		comb = "go_range (fun '(" + mapRange + ", " + x + ")"
 	}
 	return kwrap(pre, "do "+lr+" <- ("+comb+" "+st+" =>\n"+unpack(body)+") "+xs+" "+state+");\n"+
 		"match "+lr+" with\n| LRet r_ => "+retv+"\n| LCont "+st+" =>\n"+unpack(after)+"\nend")
@@ -1963,8 +2138,11 @@ func sigOf(fd *ast.FuncDecl) (fnSig, []field, string) {
 			recv = f.Names[0].Name // the module keeper behind the ante package's interface
 			continue
 		}
-		if tn := exprName(f.Type); tn == "types.BankKeeper" || tn == "types.AccountKeeper" {
+		if tn := exprName(f.Type); tn == "types.BankKeeper" || tn == "types.AccountKeeper" || tn == "BankKeeper" || tn == "AccountKeeper" || tn == "EnterpriseKeeper" {
 			continue // other keepers handed in: their calls are primitives under the parameter's name
+		}
+		if exprName(f.Type) == "sdk.AnteHandler" {
+			continue // the rest of the ante chain: `return next(..)` means "this decorator has no objection"
 		}
 		ty := goTypeK(f.Type)
 		if _, isIface := f.Type.(*ast.InterfaceType); isIface && len(f.Names) == 1 {
@@ -2001,6 +2179,8 @@ func sigOf(fd *ast.FuncDecl) (fnSig, []field, string) {
 			for i := 0; i < n; i++ {
 				if ty == tErrT {
 					sig.hasErr = true
+				} else if ty == tCtx {
+					sig.ctxResult = true // (sdk.Context, error) of an AnteHandle: the context is the world
 				} else {
 					sig.results = append(sig.results, ty)
 				}
@@ -2021,7 +2201,15 @@ func translateKeeperFunc(fd *ast.FuncDecl, funcs map[string]fnSig, defName strin
 	}
 	sig.coq = "go_" + defName
 	render := func(stateful bool) (string, []string, bool) {
-		kt := &kTrans{env: map[string]gtype{}, recv: recv, stateful: stateful, results: sig.results, hasErr: sig.hasErr, funcs: funcs}
+		for k, v := range localTypeAlias {
+			delete(structTable, v)
+			delete(localTypeAlias, k)
+		}
+		kt := &kTrans{env: map[string]gtype{}, recv: recv, stateful: stateful, results: sig.results, hasErr: sig.hasErr, funcs: funcs, errAlias: map[string]string{}, ctxResult: sig.ctxResult}
+		if fd.Recv != nil && len(fd.Recv.List) == 1 && len(fd.Recv.List[0].Names) == 1 {
+			kt.recvName = fd.Recv.List[0].Names[0].Name
+		}
+		kt.fnName = defName
 		var ps []string
 		if sig.stateful {
 			ps = append(ps, "(w : "+cur.world+")")
@@ -2053,7 +2241,7 @@ func translateKeeperFunc(fd *ast.FuncDecl, funcs map[string]fnSig, defName strin
 			rt = "(" + cur.world + " * " + rt + ")"
 		}
 		body := kt.stmts(fd.Body.List)
-		def := fmt.Sprintf("Definition go_%s %s : outcome %s :=\n%s.\n", defName, strings.Join(ps, " "), rt, body)
+		def := kt.localDefs + fmt.Sprintf("Definition go_%s %s : outcome %s :=\n%s.\n", defName, strings.Join(ps, " "), rt, body)
 		return def, kt.errs, kt.usedStateful
 	}
 	def, errs, used := render(sig.stateful)
@@ -2072,7 +2260,9 @@ func writeKeeper(repo, module, typesOut, keeperOut string) {
 	primTable = cur.prims
 	constTable = cur.consts
 	loadStructs(repo)
-	writeStructTypes(typesOut)
+	if typesOut != "" {
+		writeStructTypes(typesOut)
+	}
 	decls := map[string]*ast.FuncDecl{}
 	var allNames []string
 	for _, fn := range cur.goFiles {
@@ -2216,6 +2406,9 @@ func writeKeeper(repo, module, typesOut, keeperOut string) {
 	// the bodies of the module's own functions that the translated code calls as PRIMITIVES (described by hand in the
 	// prims files): a digest of each body (comments stripped, gofmt layout), so that an edit to one of them is noticed
 	for _, fn := range []string{"params.go", "keeper.go"} {
+		if len(cur.goFiles) == 0 {
+			break // an ante-only spec: the keeper primitives it uses are pinned by the module's own spec
+		}
 		f := parseFile(filepath.Join(repo, "x", cur.name, "keeper", fn))
 		for _, d := range f.Decls {
 			if fd, ok := d.(*ast.FuncDecl); ok && fd.Body != nil {
@@ -2278,7 +2471,9 @@ func writeKeeper(repo, module, typesOut, keeperOut string) {
 		// blanked (which store and page request go to FilteredPaginate, what happens to the result)
 		sb.WriteString("Definition " + cur.name + "_list_query_skeletons : list (string * string) :=\n  [" + strings.Join(skeletons, ";\n   ") + "].\n")
 	}
-	sb.WriteString("Definition " + cur.name + "_primitive_bodies : list (string * string) :=\n  [" + strings.Join(digests, ";\n   ") + "].\n")
+	if len(cur.goFiles) > 0 {
+		sb.WriteString("Definition " + cur.name + "_primitive_bodies : list (string * string) :=\n  [" + strings.Join(digests, ";\n   ") + "].\n")
+	}
 	os.WriteFile(keeperOut, []byte(sb.String()), 0o644)
 }
 
